@@ -5,6 +5,7 @@ CONSTANTS
   DEV_AccountPriceNext = FALSE
   DEV_StatusWrittenBack = FALSE
   DEV_BookSharedWithData = FALSE
+  DEV_HourRounded = FALSE
 INIT TInit
 NEXT TNext
 CHECK_DEADLOCK FALSE
